@@ -291,6 +291,8 @@ def run(ctx) -> str:
     ctx.guarded("R2R3R4", lambda: rule_r2_r3_r4(ctx))
     # exceptions escaping the SMT fast path escape solve() (no handler in between): same may-raise analysis as C05
     ctx.guarded("R5-fastpath", lambda: (c05._cache.clear(), c05.rule_r3(ctx)))
+    ctx.guarded("R5-declparams", lambda: c05.rule_r9(ctx, "R5"))
+    ctx.guarded("R5-loopbounds", lambda: c05.rule_r11(ctx))
     ctx.guarded("inventory", lambda: inventory_raises(ctx))
     ctx.assume("constraint in the supported fragment; asserts are developer contracts")
     ctx.assume("call-graph resolution is name based (over-approximate reachability)")
